@@ -235,6 +235,8 @@ func execute(pl planner.Executor, bound time.Duration) result {
 	}
 }
 
+var skipBad bool
+
 func runCalls(out string) {
 	w, err := trace.New(out)
 	must(err)
@@ -243,6 +245,9 @@ func runCalls(out string) {
 			fs := faultstore.New(freshStore())
 			pl, err := mkPlan(underTest(cfg, fs), text)
 			if err != nil {
+				if skipBad {
+					continue // a generated candidate the parser or planner refuses: not part of the corpus
+				}
 				must(fmt.Errorf("corpus statement %d does not parse/plan: %v\n%s", i+1, err, text))
 			}
 			r := execute(pl, 20*time.Second)
@@ -375,6 +380,7 @@ func main() {
 	plans := fl.String("plans", "", "fault plans ndjson (run)")
 	out := fl.String("out", "", "output")
 	statsOut := fl.String("stats", "", "stats json output")
+	fl.BoolVar(&skipBad, "skip-bad", false, "calls: skip statements that do not parse/plan instead of stopping")
 	must(fl.Parse(os.Args[2:]))
 	b, err := os.ReadFile(*cpath)
 	must(err)
